@@ -20,6 +20,8 @@ import (
 const Root = "/verif"
 
 type Ctx struct {
+	// ConfirmTimes may lower the number of confirming replays for a scenario (default 5).
+	ConfirmTimes func(scenario string) int
 	ID       string
 	Part     string
 	Tier     string
@@ -420,11 +422,18 @@ func (c *Ctx) e1ViolationP(scn string, v vs.Violation, policy int) {
 			return
 		}
 	}
-	// replay before report: 5 re-executions must reproduce the same finding
+	// replay before report: 5 re-executions must reproduce the same finding (fewer for scenarios a check declares
+	// expensive, e.g. a whole breadth-first search running inside one execution)
+	times := 5
+	if c.ConfirmTimes != nil {
+		if n := c.ConfirmTimes(scn); n > 0 {
+			times = n
+		}
+	}
 	var last vs.ExecResult
-	for i := 0; i < 5; i++ {
+	for i := 0; i < times; i++ {
 		var r vs.ExecResult
-		r = vs.ReplayP(scn, v.Devs, policy, i == 4)
+		r = vs.ReplayP(scn, v.Devs, policy, i == times-1 && times >= 5) // no step trace for scenarios declared expensive
 		if r.HarnessE != "" {
 			c.harnessErr = append(c.harnessErr, fmt.Sprintf("%s: replay of %v: %s", scn, v.Devs, r.HarnessE))
 			return
